@@ -9,8 +9,7 @@ def run(tier, seed, verdict):
     need = ["v1_admitted", "v2_admitted", "v0_admitted", "v1_rejected_after_close", "v2_rejected_after_close",
             "v1_admission_raced_close", "v2_admission_raced_close", "v2_discarded_senders", "v1_joins"]
     missing = [k for k in need if not st.get(k)]
-    if missing:
-        raise core.HarnessFailure("scope stress observed none of: %s" % missing)
+    core.require_observed(verdict, missing, "scope stress")
     cov = coverage(res, "C08",
                    "each evaluation is one scope lifetime: a heap-allocated v0/v1/v2 scope, 1-3 worker threads admitting "
                    "2-6 operations each (spawn, detached spawn, attach/nest + run or discard, spawn_future + await / drop), "
